@@ -16,6 +16,7 @@ def build():
     c_runner.install_core(R)
     c_runner.install_cases(R)
     c_runner.install_core_summary(R)
+    c_runner.install_cases_variant(R)
     c_prepare.install(R)
     c_labels.install(R)
     c_labels.install_ds(R)
